@@ -34,6 +34,10 @@ var c16SourceFaults = map[string][]string{
 	"unsupported-flag":     {"##!+ x", "##!+ im", "##!+ i1", "##!+ i,s", "##!+ ?", "##!+ i s", "##!+ i-s", "##!+ I"},
 	"odd-replacement-list": {"##!> include inc1 -- a", "##!> include-except inc1 exc1 -- a b c"},
 	"flags-in-include":     {"##!+ i"},
+	// directive lines that no directive pattern accepts: they must not end up as literal text of the regex
+	"malformed-directive": {"##!> include inc1 @ ~", "##!> define sep a b", "##!> define na.me x", "##!> include-except", "##!> include-except inc1", "##!> include", "##!> define x", "##!> define",
+		"##!> include  inc1 extra", "##!> cmdline unix windows", "##!> assemble x", "##!> include inc1 -"},
+	"missing-include-absolute": {"##!> include /nonexistent/dir/birds", "##!> include-except /nonexistent/a exc1", "##!> include-except inc1 /nonexistent/x", "##!> include /nonexistent/dir/birds.ra", "##!> include /nonexistent/dir/birds -- a b"},
 }
 
 // faults of the rules side / arguments (no source edit)
